@@ -1,5 +1,5 @@
 SPECIFICATION Spec
-CONSTANTS Mode = "src"
+CONSTANTS Mode = "srcwalk"
   MaxToks = 4
   LibArity = 1
   Small = FALSE
